@@ -36,6 +36,7 @@ type facts struct {
 	ExitCalls     []site      `json:"exitCalls"`     // os.Exit / stdout writes in cmd/*
 	GoStatements  []site      `json:"goStatements"`  // `go` statements (concurrency inside the library)
 	DirectiveSeq  []site      `json:"directiveSeq"`  // per function: the `$` literals of its body in source order (what = joined by " ")
+	StructFields  []site      `json:"structFields"`  // every field of every struct type of package bkl (file, type, "name type")
 }
 
 func posFunc(fset *token.FileSet, files []*ast.File, pos token.Pos) (string, string) {
@@ -129,6 +130,37 @@ func main() {
 					kind = "formatTable"
 				}
 				f.PkgVars = append(f.PkgVars, site{"", n, kind})
+			}
+		}
+	}
+	// state: every struct field of the package (a new field is new state - a cache, a memo, a pool handle)
+	for _, file := range files {
+		for _, d := range file.Decls {
+			gd, ok := d.(*ast.GenDecl)
+			if !ok {
+				continue
+			}
+			for _, sp := range gd.Specs {
+				ts, ok := sp.(*ast.TypeSpec)
+				if !ok {
+					continue
+				}
+				st, ok := ts.Type.(*ast.StructType)
+				if !ok {
+					continue
+				}
+				for _, fld := range st.Fields.List {
+					names := []string{}
+					for _, n := range fld.Names {
+						names = append(names, n.Name)
+					}
+					if len(names) == 0 {
+						names = []string{"(embedded)"}
+					}
+					for _, n := range names {
+						f.StructFields = append(f.StructFields, site{filepath.Base(fset.Position(ts.Pos()).Filename), ts.Name.Name, n + " " + exprString(fld.Type)})
+					}
+				}
 			}
 		}
 	}
